@@ -497,7 +497,7 @@ var oracleC10 = oracle{
 		if !c.basics() || c.st == nil || (c.st.Op.K != "clean" && c.st.Op.K != "cleand") {
 			return
 		}
-		if c.st.Err != "" {
+		if c.st.Err != "" && !(strings.HasPrefix(c.st.Op.L, "fault") && strings.Contains(c.st.Err, "injected")) {
 			c.fail("clean-error", normalize(c.st.Err), "Clean returned "+c.st.Err)
 			return
 		}
